@@ -1489,7 +1489,9 @@ Proof.
       { intros ->. rewrite point_eqb_refl in Hne. discriminate. }
       unfold dw_pend1 in Hin1. apply in_app_or in Hin1. destruct Hin1 as [Hold|Hnew].
       * left. split; [exact Hold|]. intros [Heq|Hr]; [congruence|contradiction].
-      * apply in_map_iff in Hnew. destruct Hnew as (h & Heq & Hh). inversion Heq as [[Ha Hi]].
+      * apply in_map_iff in Hnew. destruct Hnew as (h & Heq & Hh).
+        assert (Ha : h_await h = (m, w)) by congruence.
+        assert (Hi : new_inst orc h = i) by congruence. clear Heq. subst i.
         unfold dw_calls in Hh. apply filter_In in Hh. destruct Hh as [Hh Hc].
         apply hooks_at_in in Hh. destruct Hh as [Hh Ht].
         assert (Hst : In (TStart (new_inst orc h) h (e_rv s)) (dw_t1 hooks orc m w0 s)).
@@ -1548,7 +1550,7 @@ Proof.
   vm_compute in E. inversion E; subst. clear E.
   destruct (H _ _ eq_refl 5%Z (mkInst 1 0 false true)) as (h & snap & Hin & Hlt);
     [left; reflexivity|reflexivity|].
-  destruct Hin as [Heq|[Heq|[]]]; inversion Heq; subst. cbn in Hlt. lia.
+  cbn in Hin. repeat (destruct Hin as [Heq|Hin]; [inversion Heq; subst; cbn in Hlt; lia|]). exact Hin.
 Qed.
 
 (* ------------------------------------------------------------------ ParseTriggerExpression *)
